@@ -92,7 +92,11 @@ func conv(parent *N, n *html.Node) {
 }
 
 // NormText trims and collapses internal whitespace runs.
-func NormText(s string) string { return strings.Join(strings.Fields(s), " ") }
+// (HTML white space is ASCII white space: a no-break space is a character.)
+func NormText(s string) string { return strings.Join(strings.FieldsFunc(s, IsSpace), " ") }
+
+// IsSpace reports whether r is HTML white space.
+func IsSpace(r rune) bool { return r == ' ' || r == '\t' || r == '\n' || r == '\r' || r == '\f' }
 
 // mergeText merges adjacent text nodes (a dropped comment may have separated
 // them), normalises and removes whitespace-only ones.
